@@ -142,9 +142,19 @@ class Typestate(object):
             v = ev.value
             if a in self.m.flags:
                 tv = v.const if v.has_const() else None
-                if tv is False or tv is True:
+                if tv is False:
                     self._clear(st, "flag:" + a)
+                    st.facts = frozenset(f for f in st.facts if not (f[0] == "stale" and f[1] == "flag:" + a))
+                elif tv is True:
+                    # raising the flag declares the stored quantity valid: that is a recomputation only if the storage was rewritten
+                    # after the last change of what it is computed from -- otherwise the change stays pending (and now nothing will
+                    # ever recompute it)
+                    if not any(f[0] == "stale" and f[1] == "flag:" + a for f in st.facts):
+                        self._clear(st, "flag:" + a)
                 return
+            for flag, info in self.m.flags.items():
+                if a in info.get("storage", ()):
+                    st.facts = frozenset(f for f in st.facts if not (f[0] == "stale" and f[1] == "flag:" + flag))
             if a in self.m.memo:
                 if ev.via == "plain":
                     if v.kind == K_DICT and v.dmay is not None and not v.dmay:
@@ -177,6 +187,8 @@ class Typestate(object):
         for q, reads in self.qs.items():
             if attr in reads:
                 add.add(("chg", q, attr, ev.loc, ev.stmt))
+                if q.startswith("flag:"):
+                    add.add(("stale", q))
         if add:
             st.facts = st.facts | frozenset(add)
 
